@@ -403,6 +403,9 @@ func runC10(tier string, seed uint64) {
 				nontrivial(fmt.Sprint(kind, b, k, r.Status))
 				before = after
 			}
+			// an upload to a key that lies above or below a stored key (a directory to the fs backends): refused or
+			// stored, never at the cost of the key that was there
+			c02Nesting(s, buckets[0])
 			// every key held at the end, looked for under the beginning of its own name
 			for _, lb := range buckets[:min(2, len(buckets))] {
 				seen := map[string]bool{}
